@@ -3,9 +3,9 @@
    (gen/Pure.v, module P, written by tools/srcgen/pure.go over the combinators of Base/GoSem.v; None = panic).
    1. the tie theorems: each regenerated function equals the hand-written model of Helpers/Helpers.v, for all inputs;
    2. the headline theorems of C20 restated directly on the regenerated functions.
-   Only statements, each closed by [exact] of a lemma of Helpers/PureTie.v, and their assumptions. *)
+   Only statements, each closed by [exact] of a lemma of Helpers/PureTie_*.v, and their assumptions. *)
 From Coq.Strings Require Import String.
-From EV Require Import Base.Bytes gen.Consts Base.GoSem gen.Pure Helpers.Helpers Helpers.HelpersProofs Helpers.PureTie.
+From EV Require Import Base.Bytes gen.Consts Base.GoSem gen.Pure Helpers.Helpers Helpers.HelpersProofs Helpers.PureTie_Base Helpers.PureTie_Addr Helpers.PureTie_Meta.
 
 (* ================================================================== *)
 (* 1. regenerated definition = hand model                               *)
